@@ -78,9 +78,13 @@ impl FlyClientPDF {
 
     pub(crate) fn sampling(&self, samples_count: BlockNumber) -> HashSet<U256> {
         let mut difficulties = HashSet::default();
-        for _ in 0..samples_count {
+        // A difficulty which is sampled twice is only one sample, so it is drawn again (a limited
+        // number of times, since the sampled region could have less difficulties than required).
+        let mut attempts = samples_count.saturating_mul(16);
+        while (difficulties.len() as BlockNumber) < samples_count && attempts > 0 {
             let difficulty = self.random_sample();
             difficulties.insert(difficulty);
+            attempts -= 1;
         }
         difficulties
     }
